@@ -6,6 +6,7 @@ Java reading is proved in C23; a frozen copy of that writer and proof is AgVerif
 -/
 import AgVerif.Model.EncodedValue
 import AgVerif.Proof.JavaLiteralRef
+import AgVerif.Props.C23
 import AgVerif.Proof.Bits
 namespace AgVerif.EncodedValue
 open AgVerif.Bits AgVerif.C04Ref AgVerif.C04Ref.K
@@ -60,15 +61,15 @@ theorem pyEscapeChar_eq_escChar (c : Nat) (h : JavaSafe c) : pyEscapeChar c = es
       hexDigits_small _ (by omega)]
     rfl
 
-theorem printStringInit_eq_escape (s : List Nat) (h : ∀ c ∈ s, JavaSafe c) :
-    printStringInit s = escape s := by
+theorem printStringInitOld_eq_escape (s : List Nat) (h : ∀ c ∈ s, JavaSafe c) :
+    printStringInitOld s = escape s := by
   have : s.flatMap pyEscapeChar = s.flatMap escChar := by
     induction s with
     | nil => rfl
     | cons c cs ih =>
       simp only [List.flatMap_cons, pyEscapeChar_eq_escChar c (h c (by simp)),
         ih (fun x hx => h x (by simp [hx]))]
-  simp [printStringInit, escape, this, openQuote, closeQuote]
+  simp [printStringInitOld, escape, this, openQuote, closeQuote]
 
 theorem javaSafe_codePoint (c : Nat) (h : JavaSafe c) : AgVerif.Spec.JavaLex.IsCodePoint c := by
   unfold AgVerif.Spec.JavaLex.IsCodePoint
@@ -76,9 +77,15 @@ theorem javaSafe_codePoint (c : Nat) (h : JavaSafe c) : AgVerif.Spec.JavaLex.IsC
 
 /-- the printed String initialiser, read by Java's lexer, is one string literal denoting the string -/
 theorem print_string_safe (s : List Nat) (h : ∀ c ∈ s, JavaSafe c) :
-    AgVerif.Spec.JavaLex.javaLex (AgVerif.Spec.JavaLex.utf16 (printStringInit s))
+    AgVerif.Spec.JavaLex.javaLex (AgVerif.Spec.JavaLex.utf16 (printStringInitOld s))
       = some (AgVerif.Spec.JavaLex.utf16 s) := by
-  rw [printStringInit_eq_escape s h]
+  rw [printStringInitOld_eq_escape s h]
   exact AgVerif.C04Ref.literal_denotes s (fun c hc => javaSafe_codePoint c (h c hc))
+
+/-- the repaired printer: `string(str(value))`, for every string -/
+theorem print_string_all (s : List Nat) (h : ∀ c ∈ s, AgVerif.Spec.JavaLex.IsCodePoint c) :
+    AgVerif.Spec.JavaLex.javaLex (AgVerif.Spec.JavaLex.utf16 (printStringInit s))
+      = some (AgVerif.Spec.JavaLex.utf16 s) :=
+  AgVerif.C23.literal_denotes s h
 
 end AgVerif.EncodedValue
